@@ -125,6 +125,15 @@ def visit_once(F, rep):
            "loop body order: visited.contains -> continue; visited.insert; reader(file); module(..) (statement indices %s)" % idx, fn["sp"])
     rep.ob("VISIT-ONCE", "tree|imports-queued", "append" in idx and idx.get("append", -1) > idx.get("module", 99) - 1,
            "the files named by the module's use/from statements are queued for loading", fn["sp"])
+    # ... whether or not the module itself parsed: a file reachable only through a broken file still has to be read, or its
+    # errors (and a `File not found`) are never printed
+    from flow import uncond_nodes
+    apps = [c for c in nodes(blk, "MethodCall") if c["m"] in ("append", "extend", "push") and "to_visit" in pp(c["recv"])]
+    unconditional = bool(apps) and any(any(x is a for x in uncond_nodes(blk)) for a in apps)
+    rep.ob("VISIT-ONCE", "tree|imports-queued-unconditionally", unconditional,
+           "the imports of a module are queued whatever the result of parsing it" if unconditional else
+           "the imports of a module are only queued on one outcome of parsing it (inside a match arm / if): the files a broken "
+           "module uses are never read, so their syntax errors and missing files are not reported", fn["sp"])
     # the same key is tested and inserted
     ins = [c for c in nodes(blk, "MethodCall") if c["m"] == "insert" and "visited" in pp(c["recv"])]
     con = [c for c in nodes(blk, "MethodCall") if c["m"] == "contains" and "visited" in pp(c["recv"])]
